@@ -364,6 +364,12 @@ class PipeOps(FullOps):
             if desc == ["-1"]:
                 keep = ()
             return t.but(layout=keep, axes=axes if t.axes[0] == "R" and desc and desc[0] == "rows" else ((Q,) if desc == ["-1"] else t.axes))
+        if name == "size":
+            shp = self.value_attr(t, "shape", node, env)
+            d = args[0] if args else kwargs.get("dim")
+            if d is None:
+                return shp
+            return self.subscript(shp, ("index", d), node, env)
         if name in ("numel", "nelement", "dim"):
             return TV(kind="pyint", note=name, poly=Poly.sym(f"{name}[{'+'.join(sorted(t.origin))}]"), origin=t.origin)
         if name in ("squeeze", "unsqueeze"):
